@@ -1402,6 +1402,9 @@ func (n *node) RouteApplicationStart(
 		return gen.ErrApplicationUnknown
 	}
 	app := v.(*application)
+	if err := n.applicationStartDepends(name, app, options.ApplicationOptions); err != nil {
+		return err
+	}
 	return app.start(mode, options)
 }
 
